@@ -11,7 +11,9 @@ request   c06 hist <ad> <ti> <collectors> <ops> <namesets>
                 samples  = _ | <namehex>/<payload>+…        payload = i<n> | t<labels>
   ops         . | r<id> | u<id> | t<labels>   separated by ;
   namesets    . | <set>;<set>…   set = _ | <namehex>,…
-reply     ok <step>;<step>… <restricted>;<restricted>…           (`.` for none)
+          optional 7th field  watch = . | <k>@<set>;…   a restricted-registry object made after k calls and kept
+reply     ok <step>;<step>… <restricted>;<restricted>… [<watch>;<watch>…]          (`.` for none)
+  watch       <restricted>|<restricted>…   one per state from the k-th on (collected through the kept object)
   step        <ok|ErrorClass>!<registered ids>!<name-map keys hex>!<target info labels>!<families>!<collect() call ids>
               !<collect() calls made by the call itself (register under auto-describe)>
   restricted  <families>!<call ids>!<spec: filter of the full collection>
@@ -160,9 +162,37 @@ def hist (ad ti colls ops sets : String) : Option String := do
   let sf := finalState s0 tr
   pure ("ok " ++ joinOr ";" "." ((tr.zip (traceCalls s0 os)).map encStep) ++ " " ++ joinOr ";" "." (nss.map (encRestricted sf)))
 
+/-- a kept restricted-registry object: made after `k` calls of the history, collected after every later call (and
+right after it was made) -/
+def decWatch (f : String) : Option (Nat × List Name) :=
+  match f.splitOn "@" with
+  | [k, st] => do pure (← k.toNat?, ← (listOf "," "_" st).mapM decHex)
+  | _ => none
+
+def histWatch (ad ti colls ops sets watch : String) : Option String := do
+  let base ← hist ad ti colls ops sets
+  let adb ← if ad = "1" then some true else if ad = "0" then some false else none
+  let ti0 ← decLabels ti
+  let cs ← (listOf ";" "." colls).mapM decCollector
+  let os ← (listOf ";" "." ops).mapM (decOp cs)
+  let ws ← (listOf ";" "." watch).mapM decWatch
+  let s0 := init adb ti0
+  let states := s0 :: (trace s0 os).map (·.1)
+  let enc := ws.map fun w =>
+    let r := restrictedRegistry w.2
+    joinOr "|" "." ((states.drop w.1).map fun st =>
+      let c := r.collect st
+      "!".intercalate [encFamilies c.families, joinOr "," "." (c.calls.map encOwner),
+        encFamilies ((collect st).families.filterMap (restrictTo w.2))])
+  pure (base ++ " " ++ joinOr ";" "." enc)
+
 def handle : List String → String
   | ["hist", ad, ti, colls, ops, sets] =>
     match hist ad ti colls ops sets with
+    | some r => r
+    | none => "err bad-field"
+  | ["hist", ad, ti, colls, ops, sets, watch] =>
+    match histWatch ad ti colls ops sets watch with
     | some r => r
     | none => "err bad-field"
   | ["names", ad, coll] =>
